@@ -111,15 +111,27 @@ def export(tier, seed, verdict):
     def small():
         cfg = _cfg(os.path.join(cdir, "small.cfg"), False, palettes, grid, min(maxtrans, 2), False, 0, 1)
         return V.tlc("MCZone", cfg, workers=4, timeout=6 * 3600, heap="4g", tag="mczone-small")
-    with cf.ThreadPoolExecutor(max_workers=nsh + 1) as ex:
+    def impl():
+        # the implementation-shaped model (table, sentinels, hints) refines the declarative one
+        p = os.path.join(cdir, "impl.cfg")
+        V.write_cfg(p, open(os.path.join(V.SPEC, "MCZoneImpl.cfg")).read()
+                    .replace("Palettes = {1, 3}", "Palettes = {%s}" % ",".join(map(str, palettes)))
+                    .replace("MaxTrans = 2", "MaxTrans = %d" % min(maxtrans, 2 if tier != "thorough" else 3))
+                    .replace("Grid <- GridA", "Grid <- %s" % grid))
+        return V.tlc("MCZoneImpl", p, workers=4, timeout=6 * 3600, heap="4g", tag="mczone-impl")
+    with cf.ThreadPoolExecutor(max_workers=nsh + 2) as ex:
         fs = [ex.submit(one, sh) for sh in range(nsh)]
         fsm = ex.submit(small)
+        fim = ex.submit(impl)
         rs = [f.result() for f in fs]
         rsm = fsm.result()
+        rim = fim.result()
     zones = []
     st = {"states": 0, "transitions": 0, "cached": False, "palettes": palettes, "grid": grid, "max_transitions": maxtrans,
-          "invariants_checked_on_spec": ALLINV, "spec_violation": None}
-    for r in rs + [rsm]:
+          "invariants_checked_on_spec": ALLINV + ["LoadsAllWellFormed", "ImplBreak", "ImplMake", "ImplTrans (ZoneImpl refines Zone for every hint value)"],
+          "spec_violation": None}
+    st["zoneimpl_refinement_states"] = rim.distinct
+    for r in rs + [rsm, rim]:
         st["states"] += r.distinct
         st["transitions"] += r.generated
         if r.verdict_violation:
